@@ -297,7 +297,6 @@ Proof.
   destruct m as [fs es]. unfold overlay_classes. cbn [oc_in]. cbv zeta.
   unfold put_classes, copy_base. cbn [m_fs m_es]. f_equal.
   change (fun f => negb (is_board_fld f)) with (K nb).
-  destruct (merged_classes None fs); auto.
   match goal with
   | |- filter _ (?F fs false) = _ =>
       assert (E : forall l seen, filter (K nb) (F l seen) = filter (K nb) l)
